@@ -34,6 +34,7 @@ type FnSpec struct {
 	Assigns        []string
 	HasAssigns     bool
 	Trusted        bool
+	UnsafeAbstract string // unsafe-abstract <target> <slice param>: stores through unsafe pointers land in that slice's elements (assumed)
 	Inline         bool
 	NoFrame        bool        // the frame (assigns) of this function is not checked; it cannot be called by contract
 	NeverReads     [][2]string // heap-key prefixes the function must not touch at all (owned by another goroutine), with a label
@@ -436,6 +437,13 @@ func (c *Contracts) parseFile(prog *ssa.Program, p *packages.Package, sp *ssa.Pa
 				}
 				if s := c.spec(sp, fs[1], pos); s != nil {
 					s.Fresh = append(s.Fresh, fs[2:]...)
+				}
+			case "unsafe-abstract":
+				if !need(3) {
+					continue
+				}
+				if s := c.spec(sp, fs[1], pos); s != nil {
+					s.UnsafeAbstract = fs[2]
 				}
 			case "trusted":
 				if !need(2) {
